@@ -33,7 +33,11 @@ ASSUMPTIONS = [
     "zero) do not return a layout and are outside the property; they are counted in the evidence",
     "movable terminals are not generated: recenter_rectangles divides by the (zero) rectangle area of a terminal",
     "several calls on one Spectral object: the model's object state is what __init__ stores once (graph, radii, fixed flags, "
-    "the centre matrix) plus the modules; the model is built from the netlist observed after construction and then runs on "
+    "the centre matrix) plus the modules; the model's object is built by the model's constructor (spectral_new) from the INPUT "
+    "of the real constructor - the modules as the plain Netlist class reads the same text before any Spectral object exists, "
+    "the nets as the harness wrote them (names in the order listed, repeated names kept, weight) - its graph is the model's "
+    "clique graph of those nets (compared with the observed adjacency lists as a weighted graph: total weight between every "
+    "two nodes within 16 roundings; the order inside an adjacency list is not compared), and it then runs on "
     "ITS OWN state from call to call (only the iteration vectors of each call are taken from the record). The centre matrix "
     "is faithful to the code: a call with trials > 0 wipes the movable entries for good, init mode reads the matrix as "
     "stored at construction (not the modules' present centres) - neither touches the property",
@@ -45,6 +49,17 @@ ASSUMPTIONS = [
     "at magnitude 64; the kernel oracle accepts a position within max(64e-9, 2 * distance epsilon) of the centre",
     "shared Point objects (a centre shared by a module and its square) are not generated: create_square never runs for a "
     "movable hard module with rectangles, and the netlist reader gives every module its own centre Point",
+    "the oracle judges the first call on an object against the input of its constructor BY VALUE (nets = what the caller "
+    "wrote; areas, flags, rectangles = the plain Netlist reading of the same text), never against a snapshot of the object; "
+    "the argument itself (file, open handle, YAML tree) and the die Shape must still mean the same netlist / die afterwards "
+    "(a tree is compared by re-reading it with the plain Netlist class, not by representation)",
+    "inside the loop of spectral_layout_die: for the iterations looked into (case field look = first / last iterations, "
+    "largest graph, trials; all structured cases and every 8th (thorough: 3rd) random one) the row handed to normalize must "
+    "be the model's iter_vec of the previous normalize output within 1e-9 * max(1, |row|), either path being accepted when "
+    "the spread of the new row is within a factor 2 of epsilon; the convergence test must agree with the model's except "
+    "within epsilon/1000 of a bound or under 30-fold cancellation; a row that vanishes exactly under orthogonalisation is "
+    "not compared; the number of iterations a trial reports must be the number of normalize calls minus one",
+    "nets that list a module twice are inside the quantifier (the reader accepts them; 'every module is on some net' holds)",
     "kind cli (tools.spectral.spectral.main) is observed through the files it reads and writes and checked by the direct "
     "oracle only; module and net order of the output file are not compared",
 ]
@@ -1869,7 +1884,15 @@ def run(ctx, out, replay=None):
                 "are prefixes of each other or YAML words, trunk listed last; kind chain: several calls on ONE Spectral object "
                 "(other dies / trial counts / seeds, the same call twice) and a second object built from the layout the first "
                 "returned with hard modules put back, per axis, on the returned coordinate / off by less or more than the "
-                "distance epsilon / where they started / at the die's edge with the disc sticking out. non-trivial: kernels "
+                "distance epsilon / where they started / at the die's edge with the disc sticking out. STRUCTURED cases for the "
+                "deterministic init mode (kinds die and layout, some chains and cli): even and odd rings, paths, stars, complete "
+                "bipartite graphs, grids, the cube, trees, wheels, complete graphs (nodes renumbered in 30%), uniform weights; starts "
+                "with one value per side of the graph (mirror placement, 25% mirrored about the die's centre), +-d by parity, "
+                "symmetric about a point, equally spaced, three values, all equal, all at the centre; masses equal / the two sides in "
+                "exact balance (incl. a 1/64 share beside a 63/64 share) / one big / random, dyadic; 0 trials in 2 of 3. Nets that "
+                "list a module twice ([a,d,a,e], [a,a], [a,b,a], [a,a,a,b]) and the same net twice in every 4th layout, 25% of the "
+                "chains, every 3rd cli case. The netlist is handed over as text, file name, open file, StringIO or YAML tree. "
+                "non-trivial: kernels "
                 "with >= 2 entries not all fixed; rc with >= 2 rectangles; every die/layout/chain case")
     first = []
     if replay and "case" in replay:
